@@ -116,7 +116,7 @@ def gen_cases(rng, n):
                 ops.append({"op": "remove_absence"})
             else:
                 L = [rng.choice([0, 0, 1, 2, 3, 4, 5, 6, 8, 10, 30, 60]) for _ in range(rng.choice([1, 1, 2, 3]))]
-                ops.append({"op": "insert_absence", "list": L})
+                ops.append({"op": "insert_absence", "list": L, **({"as_tuple": True} if rng.random() < 0.15 else {})})
                 if rng.random() < 0.6:
                     ops.append({"op": "remove_absence"})
         c["ops"] = ops
